@@ -3,7 +3,9 @@
 (* Replays a recorded history of environment changes and builds of one     *)
 (* case through Repro.tla and checks Function on the recorded output       *)
 (* hashes: every `build` of the same (case, format) must carry the hash of *)
-(* the first one.                                                          *)
+(* the first one made from the same version of the sources (an            *)
+(* `envchange sources` step is Repro!ChangeSources: the builds after it,   *)
+(* in the process that built before it and in fresh ones, must agree).     *)
 (***************************************************************************)
 EXTENDS Integers, Sequences, FiniteSets, TLC, Json
 
@@ -11,14 +13,14 @@ Trace == ndJsonDeserialize("trace.ndjson")
 VARIABLES l, cid, first, env, viol, drift, merr, ncases
 vars == <<l, cid, first, env, viol, drift, merr, ncases>>
 IsEv(e) == l <= Len(Trace) /\ Trace[l].ev = e /\ l' = l + 1
-E0 == [clock |-> 0, tz |-> "UTC", procs |-> 16, style |-> "abs", pid |-> 0]
+E0 == [clock |-> 0, tz |-> "UTC", procs |-> 16, style |-> "abs", pid |-> 0, src |-> 0]
 TraceInit == l = 1 /\ cid = 0 /\ first = [x \in {} |-> ""] /\ env = E0 /\ viol = {} /\ drift = {} /\ merr = {} /\ ncases = 0
 
 TraceCase == /\ IsEv("case") /\ cid' = Trace[l].id /\ first' = [x \in {} |-> ""] /\ env' = E0 /\ ncases' = ncases + 1
              /\ UNCHANGED <<viol, drift, merr>>
 TraceEnd == IsEv("endcase") /\ UNCHANGED <<cid, first, env, viol, drift, merr, ncases>>
 
-(* Tick / SetTZ / SetProcs / SwitchStyle / NewProcess of Repro.tla, with the logged new value *)
+(* Tick / SetTZ / SetProcs / SwitchStyle / NewProcess / ChangeSources of Repro.tla, with the logged new value *)
 TraceEnv ==
   /\ IsEv("envchange")
   /\ LET e == Trace[l] IN
@@ -27,7 +29,10 @@ TraceEnv ==
               [] e.what = "procs" -> [env EXCEPT !.procs = e.n]
               [] e.what = "style" -> [env EXCEPT !.style = e.value]
               [] e.what = "process" -> [env EXCEPT !.pid = @ + 1]
-  /\ UNCHANGED <<cid, first, viol, drift, merr, ncases>>
+              [] e.what = "sources" -> [env EXCEPT !.src = @ + 1]
+  \* Function relates builds of the same format AND the same version of the sources
+  /\ first' = IF Trace[l].what = "sources" THEN [x \in {} |-> ""] ELSE first
+  /\ UNCHANGED <<cid, viol, drift, merr, ncases>>
 
 TraceBuild ==
   /\ IsEv("build")
